@@ -22,7 +22,7 @@ RULE = ("cases = Verify / PopVerify calls on the real ciphersuite classes with a
 ASSUMPTIONS = ["uniqueness of BLS signatures: for a valid key pk = sk*G1 the only accepted 96-byte string is the canonical encoding of sk*H(m)"]
 R = params.BLS_R
 E2, F2 = params.BLS_E2, params.BLS_FP2
-CLASSES = ["canonical", "other-key", "other-message", "other-suite", "pop-as-sig", "sig-as-pop", "aug-unprefixed", "sk+-1", "negated", "doubled", "plus-torsion",
+CLASSES = ["noncanonical-coordinate", "canonical", "other-key", "other-message", "other-suite", "pop-as-sig", "sig-as-pop", "aug-unprefixed", "sk+-1", "negated", "doubled", "plus-torsion",
            "identity", "random-subgroup", "bitflip", "flagflip", "multiflip", "wordswap", "length"]
 
 
@@ -126,6 +126,11 @@ def run(rec):
             for b in rng.sample(range(768), rng.randrange(2, 6)):
                 zz ^= 1 << b
             offer("multiflip", zz.to_bytes(96, "big"))
+        # the same point with a coordinate not reduced mod p (second word + p always fits in 384 bits; first word only for small x_1)
+        z1w, z2w = int.from_bytes(canon[:48], "big"), int.from_bytes(canon[48:], "big")
+        offer("noncanonical-coordinate", canon[:48] + (z2w + params.BLS_P).to_bytes(48, "big"))
+        if (z1w & Z.M381) + params.BLS_P < (1 << 381):
+            offer("noncanonical-coordinate", (z1w + params.BLS_P).to_bytes(48, "big") + canon[48:])
         offer("wordswap", canon[48:] + canon[:48])
         w2 = bytearray(canon[48:] + canon[:48]); w2[0] |= 0x80
         offer("wordswap", bytes(w2))
